@@ -533,6 +533,10 @@ def rule_r10(ctx):
         edges.update(G.rel_edges(f, is_len, zero, "=="))
         for b, k in G.nz_edges(f, is_len).items():
             edges.setdefault(b, 1 - k)
+        # a refused nni_lmq_get is the queue's own "count is zero" answer
+        for c in f.calls("nni_lmq_get"):
+            for b, (nz, z) in f.value_edges(c).items():
+                edges.setdefault(b, nz)
         # from the loop (any release of a message) the exit is reached only over an edge on which the count is zero
         bad = None
         for c in frees:
